@@ -244,7 +244,7 @@ func stepRatchet(r *Runner, s Step) error {
 	if s.Flag && r.crash != nil && tgt > cur {
 		// one transient I/O error: the creation of the ID2-th format-version marker
 		// file written by this ratchet fails.
-		r.crash.armFault("marker", max(1, s.ID2))
+		r.crash.armFault("marker.format-version", max(1, s.ID2))
 	}
 	err := r.DB.RatchetFormatMajorVersion(tgt)
 	if s.Flag && r.crash != nil && tgt > cur {
